@@ -73,7 +73,17 @@ pub fn cases(args: &[String]) {
                 bm.write_compressed(&d, Compression::new(level)).unwrap();
                 let mut sc = SizeCalculator::new();
                 sc.write_compressed(&d, Compression::new(level)).unwrap();
-                let sinks = v[..] == bm[..] && sc.size() == v.len();
+                // a SerializationContext as sink: into a pushed (chunk) buffer, and straight through
+                let mut cx = desert::SerializationContext::new(Vec::<u8>::new());
+                cx.push_buffer(vec![0xAA]);
+                cx.write_compressed(&d, Compression::new(level)).unwrap();
+                let buffered = cx.pop_buffer();
+                cx.write_compressed(&d, Compression::new(level)).unwrap();
+                let direct = cx.into_output();
+                let mut cs = desert::SerializationContext::new(SizeCalculator::new());
+                cs.write_compressed(&d, Compression::new(level)).unwrap();
+                let ctx_ok = buffered[0] == 0xAA && buffered[1..] == v[..] && direct == v && cs.into_output().size() == v.len();
+                let sinks = v[..] == bm[..] && sc.size() == v.len() && ctx_ok;
                 // the frame records the true lengths
                 let (ulen, a) = parse_vu(&v).unwrap();
                 let (clen, b) = parse_vu(&v[a..]).unwrap();
